@@ -1,5 +1,5 @@
 """C17 — deep graphs, each op visited once, untracked computations keep no history"""
-import gc, os, sys, time, types, weakref, collections, tracemalloc
+import gc, io, os, sys, time, types, weakref, collections, contextlib, tracemalloc
 import numpy as np
 import common
 from common import show_floats, show_ints, fbits
@@ -10,6 +10,7 @@ LEAN_TARGETS = ['Props.C17']
 REQUIRED_THEOREMS = ['Props.C17.each_fn_once', 'Props.C17.trace_linear', 'Props.C17.postorder_covers_reachable',
                      'Props.C17.untracked_has_no_history', 'Props.C17.loop_is_iterative_and_linear']
 REQUIRED_THEOREMS += ['Props.C17.src_explicit_stack_skeleton', 'Props.C17.src_explicit_stack_step']   # ties to tensor.py as read on this run
+REQUIRED_THEOREMS += ['Props.C17.backward_keeps_modes', 'Props.C17.untracked_after_backward']
 RULE = ('chains of depth 10..2000 (quick) / 5000 (thorough) and wide fan-out graphs over add/mul/neg/clone, run through the '
         'model and the implementation with the full engine trace compared (each recorded op called exactly once, in a topological '
         'order); programs whose ops run under no_grad or on operands that do not require grad — every op of the catalogue, optional operands absent included — (results must hold no children and '
@@ -20,9 +21,15 @@ RULE = ('chains of depth 10..2000 (quick) / 5000 (thorough) and wide fan-out gra
         'a lattice, a binary reduction tree, a chain, nested fan-in, one op whose k operands are the same tensor, dense layers (edges >> nodes) — built at size k and 2k; the work of backward() is '
         'counted deterministically (line events and calls of synapgrad frames through sys.settrace + calls of Tensor.__hash__/__eq__, which stand in for the C-level set / list look-ups) and must grow at most linearly '
         '(work(2k)/work(k) < 2.5; quadratic gives ~4), with exactly one grad_fn call per recorded op. '
+        'The count also sees what is done OUTSIDE the package on behalf of backward(): line events of every other Python frame entered during the call, calls into C-level functions (sys.setprofile c_call), and the garbage collections '
+        'that run during the call weighted by the number of objects each has to scan (gc.callbacks; automatic collection is off for the duration, so these are collections the code asked for) — the sum AND each component on its own must grow at most linearly; '
+        'next to the graphs of hundreds of ops every run builds LARGE ones (>= 2000 recorded ops at k, >= 4000 at 2k: chain and fan-out always, the other shapes drawn / all in the thorough tier), so that anything done once per N nodes or per N backward-function calls shows. '
         'LOOPS (kind loop, implementation only): untracked loops (no_grad around the loop / per step, or operands none of which requires grad) of N and then 3N more steps over randomly chosen step templates with '
         'STEP-DEPENDENT Python scalars (float, int, NumPy scalars, data-dependent), operators and r-operators, varying shapes, slicing, stack/unbind, reductions, activations, matmul, modules and losses; '
         'between the two phases nothing may grow: live Tensor objects (gc), gc-tracked objects, the size of every module-level / class-level / function-default / closure container of the synapgrad modules, traced memory. '
+        'EVENTS inside the untracked region (one every 2..9 steps, drawn per case; every event occurs inside a no_grad region in every run): backward() of a graph recorded before the region (scalar root, loss of a model, twice in a row, a call that raises), '
+        'optimizer.step() (SGD / momentum / Adam), zero_grad, Module.eval()/train() with forwards, nested no_grad / retain_grads blocks entered and left (also by exception, also by a layer rejecting its input), Trainer.test, Evaluator — after each event a result computed in the region must be untracked '
+        '(no grad_fn, no operands, requires_grad False), and nothing may grow.  The op-sequence programs (kind untracked) also call backward() of an earlier recorded graph inside the blocks and compare the modes and the flags of later results with the model. '
         'Non-trivial: depth >= 200 or fan-out >= 50 or an untracked op or a work / loop case.')
 EXHAUSTIVE = {'quick': False, 'thorough': False}
 ASSUMPTIONS = ['CPython reference counting frees unreachable tensors promptly (observed through weakref after gc.collect)']
@@ -74,6 +81,10 @@ def untracked(rng):
     # two no_grad objects constructed up front (while tracking is on) and entered later, also one inside the other
     lines = [gen_dag.leaf_line((2,), [1.0, 3.0], True), gen_dag.leaf_line((2,), [2.0, 1.0], False), 't ctx new ng', 't ctx new ng']
     nt = 2
+    # a graph recorded BEFORE the blocks are entered: backward() is called on it INSIDE them (the block goes on afterwards)
+    recorded = None
+    if rng.chance(.6):
+        lines.append(rng.pick(['t op mul 0,0', 't op add 0,1', 't op neg 0'])); recorded = nt; nt += 1
     inside = False
     inner = False
     for _ in range(rng.randint(4, 14)):
@@ -84,12 +95,15 @@ def untracked(rng):
         if r < .35 and inside:
             lines.append('t ctx exit 1' if inner else 't ctx enter 1'); inner = not inner
             continue
+        if r < .5 and inside and recorded is not None:
+            lines += [f't bw {recorded} 2 {show_floats([1.0, rng.dyadic()])}', 't modes']
+            continue
         a = rng.randrange(nt); b = rng.randrange(nt)
         lines.append(rng.pick([f't op add {a},{b}', f't op mul {a},{b}', f't op neg {a}', f't op sum {a} all 0', f't op reshape {a} -1']))
         lines.append(f't flags {nt}'); nt += 1
     if inner: lines.append('t ctx exit 1')
     if inside: lines.append('t ctx exit 0')
-    return {'kind': 'untracked', 'lines': lines}
+    return {'kind': 'untracked', 'bw_inside': sum(1 for l in lines if l.startswith('t bw')), 'lines': lines}
 
 
 def fresh(rng):
@@ -194,12 +208,22 @@ def distribution(cases):
     d = {}
     for c in cases:
         d[c['kind']] = d.get(c['kind'], 0) + 1
+        if c.get('bw_inside'): d['untracked/backward() called inside the no_grad block'] = d.get('untracked/backward() called inside the no_grad block', 0) + c['bw_inside']
         if c['kind'] == 'work':
             d[f"work/{c['family']}"] = d.get(f"work/{c['family']}", 0) + 1
+            d[f"work size/{c.get('size')} of ops"] = d.get(f"work size/{c.get('size')} of ops", 0) + 1
+            if c.get('_metrics'):
+                d.setdefault('work/recorded ops at k (min, max)', [10 ** 9, 0])
+                mm = d['work/recorded ops at k (min, max)']
+                mm[0] = min(mm[0], c['_metrics']['ops'][0]); mm[1] = max(mm[1], c['_metrics']['ops'][0])
         if c['kind'] == 'loop':
             d[f"loop/{c['scenario']}"] = d.get(f"loop/{c['scenario']}", 0) + 1
             for t_ in c['steps']:
                 d[f'loop step/{t_}'] = d.get(f'loop step/{t_}', 0) + 1
+            for e_ in sorted(set(c.get('events') or ['(no event)'])):
+                k_ = f"loop event inside the region/{e_}" + ('' if c['scenario'] != LOOP_SCENARIOS[2] or not c.get('events') else ' (tracking on, operands without grad)')
+                d[k_] = d.get(k_, 0) + 1
+            if c.get('_metrics'): d['loop events run'] = d.get('loop events run', 0) + c['_metrics'].get('events run', 0)
     return d
 
 
@@ -266,11 +290,25 @@ WORK_FAMILIES = ['fan-in', 'fan-out', 'multi-output', 'lattice', 'tree', 'chain'
 WORK_RATIO = 2.5
 
 
+WORK_BIG = {'dense-layers': 3, 'fan-out': .5, 'tree': .5, 'multi-output': .5}          # factor on k: the number of recorded ops per unit of k differs between the families
+
+
 def work_cases(rng, tier):
     out = []
     for rep in range(1 if tier == 'quick' else 4):
         for fam in WORK_FAMILIES:
-            out.append({'kind': 'work', 'family': fam, 'k': rng.randint(300, 500) if tier == 'quick' else rng.randint(300, 1500), 'variant': rng.randrange(1 << 16), 'lines': ['t modes']})
+            out.append({'kind': 'work', 'family': fam, 'size': 'hundreds', 'k': rng.randint(300, 500) if tier == 'quick' else rng.randint(300, 1500), 'variant': rng.randrange(1 << 16), 'lines': ['t modes']})
+    # LARGE graphs (>= 2000 recorded ops at k, >= 4000 at 2k): anything the engine does once per N nodes / per N backward-function
+    # calls / per M allocated objects (a collection, a compaction, a re-sort, a consistency scan) only shows when the graph
+    # holds many multiples of N.  Chains and wide graphs in every run, the other shapes drawn (all of them in the thorough tier).
+    big = [f for f in WORK_FAMILIES if f != 'same-operand']
+    if tier == 'quick':
+        rest = [f for f in big if f not in ('chain', 'fan-out')]
+        rng.shuffle(rest)
+        big = ['chain', 'fan-out'] + rest[:2]
+    for rep in range(1 if tier == 'quick' else 2):
+        for fam in big:
+            out.append({'kind': 'work', 'family': fam, 'size': 'thousands', 'k': int(rng.randint(2050, 2600) * WORK_BIG.get(fam, 1)), 'variant': rng.randrange(1 << 16), 'lines': ['t modes']})
     return out
 
 
@@ -345,20 +383,45 @@ def graph_size(root):
     return fns, len(seen), edges
 
 
-def count_backward(sg, root):
-    """deterministic amount of work of root.backward(): line events + calls of synapgrad frames + hash / eq calls on tensors"""
+def count_backward(sg, root, base_objects=None):
+    """deterministic amount of work of root.backward(), by component:
+    line / call   line events and calls of synapgrad frames;
+    line_out      line events of every OTHER Python frame entered while backward() runs (helpers of NumPy, copy, gc callbacks, ... —
+                  work done outside the package on behalf of backward), the harness's own wrappers excluded;
+    c_call        calls into C-level functions (sys.setprofile) made from any of those frames;
+    hash_eq       hash / eq calls on tensors (the C-level set / dict / list look-ups);
+    gc_runs / gc_scanned   garbage collections that run during the call and the number of objects they have to scan (automatic
+                  collection is switched off for the duration, so every collection counted is one the code asked for; a full
+                  collection scans every container object of the process — the ones that existed before the graph was built,
+                  `base_objects`, are not counted, so that the count is the part that grows with the graph)"""
     T = sg.Tensor
     BF = sg.functional.BackwardFunction
     pkg = os.path.join(os.path.abspath(common.REPO), 'synapgrad') + os.sep
-    cnt = {'line': 0, 'call': 0, 'hash_eq': 0, 'fn': 0}
+    mine = (os.path.abspath(__file__), os.path.abspath(common.__file__), contextlib.__file__)
+    cnt = {'line': 0, 'call': 0, 'line_out': 0, 'c_call': 0, 'hash_eq': 0, 'gc_runs': 0, 'gc_scanned': 0, 'fn': 0}
     def local(frame, event, arg):
         if event == 'line': cnt['line'] += 1
         return local
+    def local_out(frame, event, arg):
+        if event == 'line': cnt['line_out'] += 1
+        return local_out
     def tracer(frame, event, arg):
-        if event == 'call' and frame.f_code.co_filename.startswith(pkg):
-            cnt['call'] += 1
-            return local
+        if event == 'call':
+            fn_ = frame.f_code.co_filename
+            if fn_.startswith(pkg):
+                cnt['call'] += 1
+                return local
+            if fn_ not in mine:
+                return local_out
         return None
+    def profiler(frame, event, arg):
+        if event == 'c_call' and frame.f_code.co_filename not in mine: cnt['c_call'] += 1
+    def on_gc(phase, info):
+        if phase == 'start':
+            g = info['generation']
+            seen_ = sum(len(gc.get_objects(generation=i)) for i in range(g + 1))
+            cnt['gc_runs'] += 1
+            cnt['gc_scanned'] += max(0, seen_ - (base_objects or 0)) if g >= 2 else seen_
     def eq(a, b):
         cnt['hash_eq'] += 1; return a is b
     def hs(a):
@@ -370,17 +433,29 @@ def count_backward(sg, root):
     if had_eq is None and had_hash is None:         # only stand in for the DEFAULT identity semantics
         T.__eq__ = eq; T.__hash__ = hs
     BF.__call__ = call
-    old = sys.gettrace()
-    sys.settrace(tracer)
+    old, oldp, auto = sys.gettrace(), sys.getprofile(), gc.isenabled()
+    gc.disable()
+    gc.callbacks.append(on_gc)
+    out = io.StringIO()
     try:
-        with common.quiet():
-            root.backward()
+        with contextlib.redirect_stdout(out):
+            sys.setprofile(profiler)
+            sys.settrace(tracer)
+            try:
+                root.backward()
+            finally:
+                sys.settrace(old)
+                sys.setprofile(oldp)
     finally:
-        sys.settrace(old)
+        gc.callbacks.remove(on_gc)
+        if auto: gc.enable()
         BF.__call__ = oc
         if had_eq is None and had_hash is None:
             del T.__eq__; del T.__hash__
     return cnt
+
+
+WORK_PARTS = ['line', 'call', 'line_out', 'c_call', 'hash_eq', 'gc_scanned']
 
 
 def work_failure(c):
@@ -390,21 +465,31 @@ def work_failure(c):
     res = []
     for k in (c['k'], 2 * c['k']):
         try:
+            gc.collect()
+            base = len(gc.get_objects())            # container objects alive before the graph exists
             root = build_graph(sg, c['family'], k, c['variant'])
             fns, nodes, edges = graph_size(root)
-            cnt = count_backward(sg, root)
+            cnt = count_backward(sg, root, base)
         except RecursionError:
             return fail('recursion', f"backward on the {c['family']} graph of size {k} raised RecursionError")
         if cnt['fn'] != fns:
             return fail('calls', f"{c['family']} graph of size {k}: {cnt['fn']} grad_fn calls for {fns} recorded ops")
-        res.append((k, nodes + edges, cnt['line'] + cnt['call'] + cnt['hash_eq'], cnt))
+        res.append((k, nodes + edges, sum(cnt[p_] for p_ in WORK_PARTS), cnt, fns))
         del root
-    (k1, s1, w1, c1), (k2, s2, w2, c2) = res
-    growth, gsize = w2 / max(w1, 1), s2 / max(s1, 1)
-    if growth > WORK_RATIO * gsize / 2:
-        return fail('superlinear', f"backward over the {c['family']} graph (variant {c['variant']}): {w1} units of work (line events + calls in synapgrad frames + tensor hash/eq calls) for "
-                    f"{s1} nodes+edges at k={k1} ({w1 / s1:.1f} per item), {w2} for {s2} at k={k2} ({w2 / s2:.1f} per item): the work grows x{growth:.2f} when the graph grows x{gsize:.2f} "
-                    f"(linear = x{gsize:.2f}, quadratic = x{gsize * gsize:.2f}); counts {c1} -> {c2}")
+    (k1, s1, w1, c1, f1), (k2, s2, w2, c2, f2) = res
+    c['_metrics'] = {'ops': (f1, f2), 'work': (w1, w2), 'parts': (c1, c2)}
+    gsize = s2 / max(s1, 1)
+    units = 'line events + calls in synapgrad frames + line events in other frames + C-level calls + tensor hash/eq calls + objects scanned by garbage collections'
+    # the sum, then every component on its own (a component that is small at size k can still be the one that explodes: it is
+    # judged as soon as it is a visible part — 2 % — of the work at size 2k)
+    for part, (a1, a2) in [('all', (w1, w2))] + [(p_, (c1[p_], c2[p_])) for p_ in WORK_PARTS]:
+        if part != 'all' and (a2 < max(1000, 0.02 * w2) or a1 < max(300, 0.005 * w1)): continue      # (absent at size k: a threshold, not a growth rate — the sum judges it)
+        growth = a2 / max(a1, 1)
+        if growth > WORK_RATIO * gsize / 2:
+            return fail('superlinear', f"backward over the {c['family']} graph (variant {c['variant']}): "
+                        + (f"{w1} units of work ({units})" if part == 'all' else f"component `{part}` of the work: {a1} units") +
+                        f" for {s1} nodes+edges / {f1} recorded ops at k={k1} ({a1 / s1:.1f} per item), {a2} for {s2} / {f2} at k={k2} ({a2 / s2:.1f} per item): it grows x{growth:.2f} when the graph grows x{gsize:.2f} "
+                        f"(linear = x{gsize:.2f}, quadratic = x{gsize * gsize:.2f}); counts {c1} -> {c2}")
     return None
 
 
@@ -414,15 +499,34 @@ LOOP_STEPS = ['mul-add-float', 'r-operators', 'int-scalar', 'division', 'pow', '
 LOOP_SCENARIOS = ['no_grad around the loop', 'no_grad per step', 'no operand requires grad']
 
 
+# EVENTS that happen INSIDE the untracked region while the loop runs (a training script's bookkeeping loop: an EMA update that
+# also back-propagates an earlier loss, steps an optimizer, switches the model's mode, validates, ...).  Whatever the event does,
+# when it is over the region is still untracked: results computed in it afterwards hold no history, nothing grows.
+LOOP_EVENTS = ['backward', 'backward-of-loss', 'backward-accumulate-twice', 'backward-raises', 'optimizer-step', 'zero_grad', 'eval-train', 'train-forward',
+               'nested-no_grad', 'nested-no_grad-raises', 'nested-retain_grads', 'nested-retain_grads-raises', 'library-raises-in-nested', 'trainer-test', 'evaluator']
+
+
 def loop_cases(rng, tier):
     out = []
     n = 10 if tier == 'quick' else 40
+    ptr = 0
     for j in range(n):
         # every step template occurs in the cases of one run: case j is built around templates 2j, 2j+1 (mod) plus random ones
         steps = [LOOP_STEPS[(2 * j) % len(LOOP_STEPS)], LOOP_STEPS[(2 * j + 1) % len(LOOP_STEPS)]] + [rng.pick(LOOP_STEPS) for _ in range(rng.randint(1, 4))]
         if j % 3 == 0 and 'mul-add-float' not in steps: steps.append('mul-add-float')
         rng.shuffle(steps)
-        out.append({'kind': 'loop', 'scenario': LOOP_SCENARIOS[j % 3] if j < 6 else rng.pick(LOOP_SCENARIOS), 'steps': steps, 'd': rng.pick([1, 3, 8]),
+        scenario = LOOP_SCENARIOS[j % 3] if j < 6 else rng.pick(LOOP_SCENARIOS)
+        # every event occurs, inside a no_grad region, in the cases of one run (four designated ones per such case, in turn);
+        # the loops over operands that do not require grad get random ones; some later cases stay without events
+        if scenario != LOOP_SCENARIOS[2] and (j < 6 or j % 2):
+            events = [LOOP_EVENTS[(ptr + i) % len(LOOP_EVENTS)] for i in range(4)] + [rng.pick(LOOP_EVENTS) for _ in range(rng.randint(0, 2))]
+            ptr += 4
+            rng.shuffle(events)
+        elif j < 6 or j % 2:
+            events = [rng.pick(LOOP_EVENTS) for _ in range(rng.randint(1, 4))]
+        else:
+            events = []
+        out.append({'kind': 'loop', 'scenario': scenario, 'steps': steps, 'd': rng.pick([1, 3, 8]), 'events': events, 'every': rng.randint(2, 9), 'opt': rng.pick(['sgd', 'sgd-momentum', 'adam']),
                     'n': rng.randint(60, 120) if tier == 'quick' else rng.randint(150, 500), 't0': rng.randrange(10 ** 6), 'lines': ['t modes']})
     return out
 
@@ -472,7 +576,80 @@ def _loop_runner(sg, c):
         if name == 'iterate': return sg.stack([r_ * (1.0 + a) for r_ in x.reshape((d, 1))], 0).reshape((d,)) * 0.5 + float(len(x)) * a
         raise ValueError(name)
 
+    # ---- events inside the untracked region (their state is built here, with tracking on)
+    events, every = c.get('events') or [], c.get('every', 5)
+    ev = {}
+    if events:
+        from synapgrad import optim
+        from synapgrad.nn.utils.train import Trainer, Evaluator
+        class Fault(Exception): pass
+        ew = sg.Tensor(np.linspace(-1.0, 1.0, d), requires_grad=True)
+        g_scalar = ((ew * ew) * 0.5 + ew).sum()             # graphs recorded BEFORE the region is entered
+        g_vector = ew * ew + 1.0
+        model = nn.Sequential(nn.Linear(d, 3), nn.ReLU(), nn.BatchNorm1d(3), nn.Dropout(0.1), nn.Linear(3, 1))
+        params = model.parameters()
+        opt = (optim.Adam(params, lr=1e-3) if c.get('opt') == 'adam' else optim.SGD(params, lr=1e-3, momentum=0.5) if c.get('opt') == 'sgd-momentum' else optim.SGD(params, lr=1e-3))
+        Xb = sg.Tensor(np.linspace(-1.0, 1.0, 4 * d).reshape(4, d).astype(np.float32)); yb = sg.Tensor(np.array([0.0, 1.0, 1.0, 0.0], dtype=np.float32))
+        bad = sg.Tensor(np.ones((4, d + 1), dtype=np.float32))
+        g_loss = mse(model(Xb).squeeze(dim=1), yb)
+        pw = sg.Tensor(np.linspace(1.0, 2.0, d), requires_grad=True)         # the probe operands
+        pq = sg.Tensor(np.linspace(1.0, 2.0, d))
+        evaluator = Evaluator(mode=Evaluator.BINARY)
+        def swallow(f):
+            try: f()
+            except Exception: pass
+        def e_nested_ng():
+            with sg.no_grad():
+                _ = pw * 2.0
+                with sg.no_grad(): _ = model(Xb)
+        def e_nested_ng_raises():
+            try:
+                with sg.no_grad():
+                    with sg.no_grad(): raise Fault('inner')
+            except Fault: pass
+        def e_nested_rg():
+            with sg.retain_grads():
+                _ = pw * pw
+                with sg.no_grad(): _ = pw + 1.0
+        def e_nested_rg_raises():
+            try:
+                with sg.retain_grads():
+                    _ = pw * pw; raise Fault('inner')
+            except Fault: pass
+        def e_lib_raises():
+            try:
+                with sg.no_grad(): model(bad)                # the layer rejects the malformed batch inside a nested block
+            except Exception: pass
+        def e_eval_train():
+            model.eval(); _ = model(Xb); model.train()
+        def e_train_forward():
+            model.train(); _ = model(Xb); model.eval(); _ = model(Xb)
+        def e_trainer_test():
+            tr = Trainer(model, sg); tr.compile(mse, opt, evaluator)
+            tr.test([(Xb, yb), (Xb, yb)])
+        def e_evaluator():
+            evaluator.step(yb, F.sigmoid(model(Xb)), prefix='val'); evaluator.compute(prefix='val')
+        def e_bw_twice():
+            g_scalar.backward(); g_scalar.backward()
+        ev = {'backward': lambda: g_scalar.backward(), 'backward-of-loss': lambda: g_loss.backward(), 'backward-accumulate-twice': e_bw_twice,
+              'backward-raises': lambda: (swallow(lambda: g_vector.backward()), swallow(lambda: g_scalar.backward(sg.Tensor(np.ones((d + 2, 2)))))),
+              'optimizer-step': lambda: opt.step(), 'zero_grad': lambda: (opt.zero_grad(), model.zero_grad()), 'eval-train': e_eval_train, 'train-forward': e_train_forward,
+              'nested-no_grad': e_nested_ng, 'nested-no_grad-raises': e_nested_ng_raises, 'nested-retain_grads': e_nested_rg, 'nested-retain_grads-raises': e_nested_rg_raises,
+              'library-raises-in-nested': e_lib_raises, 'trainer-test': e_trainer_test, 'evaluator': e_evaluator}
+        assert sorted(ev) == sorted(LOOP_EVENTS)
+
+    def event(t):
+        name = events[(t // every) % len(events)]
+        ev[name]()
+        st['events run'] = st.get('events run', 0) + 1
+        # still untracked?  a result computed in the region right after the event
+        r = (pw * 2.0 + pw) if (ng_all or ng_step) else (pq * 2.0 + pq)
+        if (r.requires_grad or r.grad_fn is not None or len(r._children)) and 'bad' not in st:
+            st['bad'] = (name, f"after the event `{name}` (step {t}) a result computed in the same untracked region ({'inside the no_grad block, from a leaf that requires grad' if (ng_all or ng_step) else 'from operands that do not require grad'}) "
+                               f"is tracked: requires_grad={r.requires_grad} grad_fn={'set' if r.grad_fn is not None else None} operands kept={len(r._children)}")
+
     def one(t):
+        if events and t % every == 0: event(t)
         x = st['x']
         for name in c['steps']:
             x = step(name, x, t)
@@ -571,8 +748,9 @@ def loop_failure(c):
     n, t = c['n'], c['t0'] + 10 ** 7 * _LOOP_RUNS[0]
     _LOOP_RUNS[0] += 1
     first = t
-    def fail(cls, what):
-        return {'key': {'cls': cls}, 'what': f"untracked loop ({c['scenario']}; steps {c['steps']}; vectors of {c['d']}; step numbers from {first}): " + what}
+    def fail(cls, what, **kw):
+        return {'key': dict({'cls': cls}, **kw), 'what': f"untracked loop ({c['scenario']}; steps {c['steps']}; events inside the region {c.get('events') or 'none'} (one every {c.get('every')} steps, optimizer {c.get('opt')}); "
+                                                          f"vectors of {c['d']}; step numbers from {first}): " + what}
     try:
         run, st = _loop_runner(sg, c)
         run(t, 20); t += 20
@@ -594,6 +772,9 @@ def loop_failure(c):
         return fail('raises', f'raised {type(e).__name__}: {e}')
     c['_metrics'] = {'live': (liveA, liveB), 'gc objects': (objsA, objsB), 'bytes alive allocated in the phase': (memA, memB)}
     x = st['x']
+    c['_metrics']['events run'] = st.get('events run', 0)
+    if st.get('bad'):
+        return fail('history-after-event', st['bad'][1], event=st['bad'][0])
     if x.requires_grad or len(x._children) or x.grad_fn is not None:
         return fail('history', f'the result is tracked: requires_grad={x.requires_grad} children={len(x._children)} grad_fn={x.grad_fn}')
     grown = {k: (contA.get(k, 0), v) for k, v in contB.items() if v - contA.get(k, 0) > 2}
@@ -614,9 +795,26 @@ def oracle(c):
         return dict(f, case={'kind': 'runtime'}) if f else None
     if c['kind'] in ('work', 'loop'):
         f = work_failure(c) if c['kind'] == 'work' else loop_failure(c)
+        if f and c['kind'] == 'loop' and c.get('events'):
+            # the smallest failing loop: one event, one step template
+            for e_ in ([f['key']['event']] if f['key'].get('event') else []) + list(dict.fromkeys(c['events'])):
+                c2 = dict(c, events=[e_], steps=c['steps'][:1], n=min(c['n'], 60))
+                f2 = loop_failure(c2)
+                if f2:
+                    c, f = c2, f2
+                    break
         return dict(f, case={k: v for k, v in c.items() if not k.startswith('_') and k != 'desc'}) if f else None
     io = _io(c)
+    depth = 0
     for li, (l, o) in enumerate(zip(c['lines'], io)):
+        if c['kind'] == 'untracked' and 'op' not in c and l.startswith('t ctx e'):
+            depth += 1 if l.startswith('t ctx enter') else -1
+        if c['kind'] == 'untracked' and depth > 0 and l.startswith('t flags') and ' ' in o:
+            f = dict(kv.split('=') for kv in o.split(' '))
+            if f['rg'] != '0' or f['children'] != '0' or f['fn'] != '0':
+                return {'key': {'cls': 'history-inside-no_grad'}, 'case': {'kind': c['kind'], 'lines': c['lines'][:li + 1]}, 'what': f'a result computed inside an active no_grad block is tracked: {o}'}
+        if l.startswith('t bw') and c['kind'] == 'untracked':
+            continue
         if l.startswith('t bw'):
             if o == 'rejected':
                 return {'key': {'cls': 'backward-raises', 'kind': c['kind']}, 'case': c, 'what': 'backward raised'}
